@@ -190,7 +190,7 @@ Fixpoint run (fuel : nat) (r : routine) (x : pv) {struct fuel} : res pv :=
     else
       match r with
       | RLeaf s => leaf_m rt s x
-      | RNone => Ok x
+      | RNone => if is_none_val rt x then Ok x else Raise EValue
       | RNoOp => Ok x
       | RSeq k r' => bind (itervalues rt x) (fun vs => bind (mapM (run n r') vs) (fun rs => Ok (PSeq KList rs)))
       | RMap k rk rv =>
